@@ -103,8 +103,20 @@ ITEMS = {
     'longlongs_neg': ['longlongs -4'], 'csub': ['sub x8 x8 x9'], 'cand': ['and x8 x8 x9'], 'cslli': ['slli x9 x9 2'],
     # pack formats without a byte-order character use the host's native sizes (l / L are 8 bytes on LP64)
     'packL_native': ['pack L 7'], 'packl_native': ['pack l -7'], 'packI_native': ['pack I 7'], 'packq_eq': ['pack =q 1'],
+    'li_clui': ['li x10 0x5004'], 'li_clui_neg': ['li x9 -4103'], 'lui_hi_lit': ['lui x11 %hi(0x5004)', 'addi x11 x11 %lo(0x5004)'],
     'auipc_ret': ['auipc x10 0', 'ret'], 'auipc_jalr': ['auipc x6 16', 'jalr x0 x6 0'], 'auipc_jr': ['auipc x5 0', 'jr x5'],
 }
+
+
+def data_align():
+    """every data item kind followed by aligns of several sizes (the align sees the position the sizes add up to)"""
+    out = []
+    data = ['dh', 'db2', 'dw', 'dd', 'bytes', 'shorts', 'ints', 'longs', 'longlongs', 'string', 'string_u', 'packh', 'packQ',
+            'packL_native', 'packl_native', 'packq_eq', 'longs_neg', 'longlongs_neg']
+    for name in data:
+        item = ITEMS[name]
+        out.append(('dal_' + name, item + ['align 8', 'L1:', 'dw L1'] + item + ['db 1', 'align 3', 'L2:', 'dw L2', 'align 16', 'L3:', 'dd L3']))
+    return out
 
 
 def between():
@@ -206,7 +218,7 @@ def random_programs(seed, n, max_len=9):
     rnd = random.Random(1000003 * (seed + 1))
     plain = [F4, FC, 'li x5 5', 'li x5 0x12345678', 'mv x8 x9', 'ret', 'sub x8 x8 x9', 'slli x9 x9 2', 'ebreak',
              'dw 7', 'dh 1', 'dd 1', 'bytes 1 2', 'shorts -1 2', 'ints 1', 'longs -1', 'longlongs 1', 'string ab',
-             'string \u00e9x', 'pack <h 1', 'pack >Q 1', 'pack L 7', 'pack l -1', 'auipc x6 0', 'align 4', 'align 8', 'align 2', 'K9 = 3', 'addi x9 x9 K9',
+             'string \u00e9x', 'pack <h 1', 'pack >Q 1', 'pack L 7', 'pack l -1', 'auipc x6 0', 'li x10 0x5004', 'li x9 100000', 'lui x11 %hi(0x7004)', 'align 4', 'align 8', 'align 2', 'K9 = 3', 'addi x9 x9 K9',
              'lw x9 4(x2)', 'sw x8 8(x9)', 'and x8 x8 x9', 'jr x5', 'nop', 'fence']
     refs = ['beq x8 x0 %s', 'blt x5 x6 %s', 'bnez x9 %s', 'bgt x5 x6 %s', 'j %s', 'jal %s', 'jal x5 %s', 'call %s', 'tail %s',
             'dw %s', 'dw %%offset(%s)', 'li x6 %s', 'addi x5 x5 %%offset(%s)', 'lui x5 %%hi(%s)', 'addi x5 x5 %%lo(%s)',
